@@ -398,6 +398,11 @@ def base_shapes():
         ('major', ('E', dt, C(4, 4), 600001.0, 400000.0, 30.0, [H1])),
         ('minor', ('E', dt, C(4, 4), 600000.0, 400001.0, 30.0, [H1])),
         ('rotation', ('E', dt, C(4, 4), 600000.0, 400000.0, 31.0, [H1])),
+        # the same figure on the ground, another value of the field: equality is field-wise, and whatever it is it must
+        # agree with the hash (seeded change C15-v2 compared rotations modulo 180 but hashed the raw value)
+        ('rotation+180', ('E', dt, C(4, 4), 600000.0, 400000.0, 210.0, [H1])),
+        ('rotation-180', ('E', dt, C(4, 4), 600000.0, 400000.0, -150.0, [H1])),
+        ('rotation+360', ('E', dt, C(4, 4), 600000.0, 400000.0, 390.0, [H1])),
         ('holes-none', og.with_holes(E, [])), ('holes-other', og.with_holes(E, [H2])),
     ]))
     R = ('R', dt, C(4, 4), 20000.0, 600000.0, 0.0, 360.0, [H1])
@@ -659,6 +664,13 @@ def gen_holes(run):
         for j in range(1, k):
             rot = ring[j:] + ring[:j]
             lines += pair_lines(('P', 0, None, outer, [('P', 0, None, rot if j % 2 else rot[::-1], [])]), b0, ['eq', 'setlen'])
+        if k >= 5:
+            # the same hole vertices joined in another order (every second vertex: pentagon -> pentagram …): the same vertex
+            # SET but other edges — another hole, hence another polygon (seeded change C15-v3 compared holes as vertex sets)
+            step = 2 if k % 2 else 3
+            if math.gcd(step, k) == 1:
+                thread = [ring[(i * step) % k] for i in range(k)]
+                lines += pair_lines(('P', 0, None, outer, [('P', 0, None, thread + [thread[0]], [])]), b0, ['eq', 'hasheq', 'setlen'])
     # holes of the box-like kinds: list equality, holes written differently
     for mk in (lambda hs: ('B', DTS[2], C(0, 8), C(8, 0), hs), lambda hs: ('C', None, C(4, 4), 500000.0, hs),
                lambda hs: ('E', None, C(4, 4), 600000.0, 400000.0, 30.0, hs),
